@@ -1549,6 +1549,23 @@ pub fn gen_sub(prop: &str, tier: &str, seed: u64) -> Out {
                 o.push(format!("encinto {} {}", hex(&pre), t));
                 o.push(format!("spec:encinto {} {}", hex(&pre), t));
             }
+            // the builders given an item that is not JSONB (empty, too short, JSON text, an unknown header tag) in
+            // every position, into empty and non-empty buffers: an error, and the buffer as it was
+            {
+                let good = [hex(&Value::Number(Number::UInt64(1)).to_vec()), hex(&Value::Array(vec![Value::Null]).to_vec())];
+                let bad = ["", "200000", "7b2261223a317d", "e000000100000000", "00000000"];
+                for pre in ["-", "0102", "80000001000000002000000020000001"] {
+                    for b in bad {
+                        for pos in 0..3 {
+                            let mut items: Vec<String> = vec![good[0].clone(), good[1].clone()];
+                            items.insert(pos, b.to_string());
+                            o.push(format!("barr {} {}", pre, items.join(";")));
+                            let kvs: Vec<String> = items.iter().enumerate().map(|(i, d)| format!("{}:{}", hex(["b", "a", "c"][i].as_bytes()), d)).collect();
+                            o.push(format!("bobj {} {}", pre, kvs.join(";")));
+                        }
+                    }
+                }
+            }
             // LazyValue (raw JSONB and parsed text) written into a non-empty buffer
             for t in SMALL_DOCS.iter().chain(EDGE_DOCS.iter()) {
                 let v = jsonb::parse_value(t.as_bytes()).unwrap();
